@@ -27,6 +27,8 @@ type Event struct {
 	C1  int    `json:"c1"` // Count/Size after the call
 	Now int64  `json:"now"`
 	Cb  string `json:"cb"`
+	Lo  int    `json:"lo"` // aggregated ballast calls: key range b<lo>..b<hi>
+	Hi  int    `json:"hi"`
 	// evictions fired during the call: {cb,k,v}; visits: {k,v}
 	Evs []KV `json:"evs"`
 	Vis []KV `json:"vis"`
